@@ -34,7 +34,7 @@ REQUIRED = dict(monitors=['fit-names-and-order', 'prior-implied-by-current-setti
                           'boundaries-implied-by-current-settings', 'derived-names', 'write-back-is-identity',
                           'update-sets-fitted-to-prior-transform', 'update-leaves-others-untouched',
                           'unknown-parameter-is-an-error', 'history-log-complete'],
-                classes=['op:enable_fit', 'op:disable_fit', 'op:set_mode', 'op:set_boundary', 'op:set_factor_boundary',
+                classes=['op:failed_compile', 'update:same-container-edited-in-place', 'update:same-vector-after-direct-write', 'op:enable_fit', 'op:disable_fit', 'op:set_mode', 'op:set_boundary', 'op:set_factor_boundary',
                          'op:set_prior', 'op:enable_derived', 'op:disable_derived', 'op:compile_params',
                          'op:update_model', 'changed-after-first-compile', 'observation-parameter-fitted',
                          'user-prior-other-space', 'bounds-reversed'])
@@ -450,6 +450,37 @@ def wl_history(ctx, rng):
             # judge against the settings as they were at the LAST compile: rebuild a frozen view
             frozen = FrozenRef(ref, fitted_now)
             judge_update(ctx, opt, frozen, model, obs, theta, history, identity=False)
+            mine_extra = 0
+            if theta and rng.random() < 0.5:
+                # (a) the SAME container is written again after being edited in place (what a sampler does with its cube)
+                buf = np.array(theta, dtype=float) if rng.random() < 0.5 else list(theta)
+                opt.update_model(buf)
+                j = int(rng.integers(0, len(theta)))
+                cur = opt.fitting_parameters[j][2]()
+                sp = 'log' if type(opt.fitting_priors[j]).__name__.startswith('Log') else 'linear'
+                x = cur * 10 ** rng.uniform(0.05, 0.3)
+                buf[j] = math.log10(x) if sp == 'log' else x
+                opt.update_model(buf)
+                mine_extra += 2
+                vals = all_values(model, obs)
+                for i, nm in enumerate(fitted_now):
+                    ctx.close('update-sets-fitted-to-prior-transform', vals[nm], opt.fitting_priors[i].prior(buf[i]), 1e-12,
+                              param=nm, variant='same-container-edited-in-place', history=history[-12:])
+                ctx.observe('update:same-container-edited-in-place')
+            elif theta:
+                # (b) the same vector again after a fitted parameter was written directly in between
+                opt.update_model(list(theta))
+                j = int(rng.integers(0, len(theta)))
+                t = opt.fitting_parameters[j]
+                t[3](t[2]() * float(rng.uniform(1.05, 1.5)))
+                opt.update_model(list(theta))
+                mine_extra += 2
+                vals = all_values(model, obs)
+                for i, nm in enumerate(fitted_now):
+                    ctx.close('update-sets-fitted-to-prior-transform', vals[nm], opt.fitting_priors[i].prior(theta[i]), 1e-12,
+                              param=nm, variant='same-vector-after-direct-write', history=history[-12:])
+                ctx.observe('update:same-vector-after-direct-write')
+            mine += ['update_model'] * mine_extra
             # too many / too few values is an error
             mine.append(op)
             try:
